@@ -7,7 +7,7 @@ import subprocess
 
 VERIF = os.path.dirname(os.path.dirname(os.path.abspath(__file__)))
 REPO = os.environ.get('VERIF_REPO', '/repo')
-WORK = os.path.join(VERIF, 'work')
+WORK = os.environ.get('VERIF_WORK') or os.path.join(VERIF, 'work')
 
 API = '''
 // ---- appended by driver/natives.py: public doors for the replay program (not part of /repo) ----
@@ -69,6 +69,19 @@ def build_replay(features=()):
     """Build (incrementally) and return the replay binary path. Raises RuntimeError on build failure."""
     gen_macrolib()
     rdir = os.path.join(VERIF, 'replay')
+    if REPO != '/repo' or WORK != os.path.join(VERIF, 'work'):
+        # development runs against another checkout / work directory: a copy of the replay crate pointing there
+        rdir2 = os.path.join(WORK, 'replay-crate')
+        os.makedirs(os.path.join(rdir2, 'src'), exist_ok=True)
+        for rel in ['build.rs', 'Cargo.lock'] + ['src/' + f for f in os.listdir(os.path.join(rdir, 'src'))]:
+            a, b = os.path.join(rdir, rel), os.path.join(rdir2, rel)
+            if os.path.exists(a) and (not os.path.exists(b) or open(a, 'rb').read() != open(b, 'rb').read()):
+                shutil.copy(a, b)
+        toml = open(os.path.join(rdir, 'Cargo.toml')).read().replace('"/repo/ts-rs"', f'"{REPO}/ts-rs"').replace('"../work/macrolib"', f'"{WORK}/macrolib"')
+        pt = os.path.join(rdir2, 'Cargo.toml')
+        if not os.path.exists(pt) or open(pt).read() != toml:
+            open(pt, 'w').write(toml)
+        rdir = rdir2
     lock = os.path.join(rdir, 'Cargo.lock')
     if not os.path.exists(lock):
         shutil.copy(os.path.join(REPO, 'Cargo.lock'), lock)
